@@ -44,6 +44,9 @@ pub struct Case {
     /// known selections on r0 (annotated before the operation)
     pub known: Vec<(usize, usize)>,
     pub op: Op,
+    /// milestone interval of the store's configuration (None = default configuration)
+    #[serde(default)]
+    pub milestone: Option<usize>,
 }
 
 impl Op {
@@ -268,7 +271,7 @@ impl Property for C07 {
         ]
     }
     fn cases(&self, tier: Tier) -> u64 {
-        tier.pick(300_000, 8_000_000)
+        tier.pick(800_000, 10_000_000)
     }
     fn strategy(&self, tier: Tier) -> BoxedStrategy<Case> {
         gen::case_strategy(tier)
@@ -305,7 +308,13 @@ impl Property for C07 {
             return out;
         }
         // ---- build the store
-        let mut store = AnnotationStore::default();
+        let mut store = match case.milestone {
+            None => AnnotationStore::default(),
+            Some(m) => {
+                out.label("milestone.nondefault");
+                AnnotationStore::new(Config::default().with_milestone_interval(m))
+            }
+        };
         for (i, t) in case.texts.iter().enumerate() {
             if store
                 .add_resource(TextResourceBuilder::new().with_id(format!("r{}", i)).with_text(t.as_str()))
